@@ -1219,6 +1219,14 @@ def _any(a, dim=None, keepdim=False):
     return mk(_reduce(A, _axes(A, dim), T.mk_or, z3.BoolVal(False), keepdim), torch.bool)
 
 
+@handler("count_nonzero")
+def _count_nonzero(a, dim=None):
+    B = to_terms(a, torch.bool)
+    one, zero = T.const_of(1, torch.int64), T.const_of(0, torch.int64)
+    A = vmap(lambda b: T.mk_ite(b, one, zero), B)
+    return mk(_reduce(A, _axes(A, dim), T.mk_add, zero, False), torch.int64)
+
+
 @handler("all")
 def _all(a, dim=None, keepdim=False):
     A = to_terms(a, torch.bool)
